@@ -1,12 +1,13 @@
 (* Entry point of the extracted evaluator. *)
 From Coq Require Import String.
-From HS Require Import Lib.Base Run.Val Run.ServeRun Run.ServeSpec Run.NegotRun Run.StreamRun Run.DirRun Run.FileRun.
+From HS Require Import Lib.Base Run.Val Run.ServeRun Run.ServeSpec Run.NegotRun Run.StreamRun Run.DirRun Run.FileRun Run.SchedRun.
 
 Definition E_SERVE := bs "serve"%string.
 Definition E_NEGOT := bs "negot"%string.
 Definition E_STREAM := bs "stream"%string.
 Definition E_DIR := bs "dir"%string.
 Definition E_FILE := bs "file"%string.
+Definition E_SCHED := bs "sched"%string.
 
 Definition run_case (engine : bytes) (v : val) : val :=
   if beq_bytes engine E_SERVE then
@@ -28,4 +29,5 @@ Definition run_case (engine : bytes) (v : val) : val :=
   else if beq_bytes engine E_STREAM then run_stream v
   else if beq_bytes engine E_DIR then run_dir v
   else if beq_bytes engine E_FILE then run_file v
+  else if beq_bytes engine E_SCHED then run_sched v
   else VL [finding K_BAD engine (VL []) (VL [])].
